@@ -6,6 +6,8 @@ import Mathlib.Analysis.SpecialFunctions.Trigonometric.DerivHyp
 import Mathlib.Analysis.SpecialFunctions.Complex.Arg
 import Mathlib.Analysis.SpecialFunctions.Log.Basic
 import Mathlib.Analysis.SpecialFunctions.Sqrt
+import Mathlib.Algebra.Order.Floor.Semiring
+import Mathlib.Algebra.Order.Archimedean.Real.Basic
 /-!
 # The real-number reading of the model's scalar operations
 
@@ -33,6 +35,7 @@ instance instScalarReal : Scalar ℝ where
   leb a b := decide (a ≤ b)
   eqb a b := decide (a = b)
   ofNat n := (n : ℝ)
+  ceilNat x := ⌈x⌉₊
 end
 
 namespace Scalar
@@ -45,6 +48,7 @@ namespace Scalar
 @[simp] theorem real_exp (x : ℝ) : Scalar.exp x = Real.exp x := rfl
 @[simp] theorem real_log (x : ℝ) : Scalar.log x = Real.log x := rfl
 @[simp] theorem real_abs (x : ℝ) : Scalar.abs x = |x| := rfl
+@[simp] theorem real_ceilNat (x : ℝ) : Scalar.ceilNat x = ⌈x⌉₊ := rfl
 @[simp] theorem real_ofNat (n : ℕ) : (Scalar.ofNat n : ℝ) = (n : ℝ) := rfl
 @[simp] theorem real_ltb (a b : ℝ) : (Scalar.ltb a b = true) ↔ a < b := by
   simp [Scalar.ltb]
